@@ -20,6 +20,16 @@ fn c13_pair(rep: &Report, b: &Bench, src: &[u8]) {
     let off = b.run(src, Mode::Build, true, false);
     rep.tv(2);
     c13_compare(rep, b, src, &on, &off, "preprocess");
+    if src.iter().filter(|&&c| c == b'\n').count() <= 2 {
+        // the option means the same in the only-if-needed mode and in the final pass of a file with dependencies
+        let on = b.run(src, Mode::InMemoryBuild, true, true);
+        let off = b.run(src, Mode::InMemoryBuild, true, false);
+        c13_compare(rep, b, src, &on, &off, "in-memory build");
+        let on = b.run(src, Mode::Build, false, true);
+        let off = b.run(src, Mode::Build, false, false);
+        c13_compare(rep, b, src, &on, &off, "final pass");
+        rep.tv(4);
+    }
 }
 
 fn c13_compare(rep: &Report, b: &Bench, src: &[u8], on: &ImplRes, off: &ImplRes, how: &str) {
@@ -275,7 +285,7 @@ pub fn run_c12(tier: &str) -> i32 {
 
 // ---------------------------------------------------------------- C16
 
-pub const TOK_16: [&str; 9] = ["TXTPP#run", "-TXTPP#", "TXTPP", "#", " ", "\t", "x", "\u{e9}", "T"];
+pub const TOK_16: [&str; 10] = ["TXTPP#run", "-TXTPP#", "TXTPP", "#", " ", "\t", "x", "\u{e9}", "T", "\0"];
 
 fn lines_over_tokens(max_tok: usize) -> Vec<String> {
     let mut set = BTreeSet::new();
@@ -318,7 +328,7 @@ pub fn run_c16(tier: &str) -> i32 {
     // (max tokens per line, max lines)
     let plans: Vec<(usize, usize)> = if thorough { vec![(2, 3), (3, 2)] } else { vec![(2, 2), (3, 1)] };
     rep.set("token_alphabet", json!(TOK_16));
-    rep.set("bounds", json!(format!("texts with (tokens per line, lines) <= {:?} over 9 look-alike tokens; (a) directive-free texts verbatim, (b) write-escape round trip of every admissible text with and without a stored tag, (c) ordinary lines in order on the C01 core space", plans)));
+    rep.set("bounds", json!(format!("texts with (tokens per line, lines) <= {:?} over 10 look-alike tokens; (a) directive-free texts verbatim, (b) write-escape round trip of every admissible text with and without a stored tag, (c) ordinary lines in order on the C01 core space", plans)));
     rep.assume("which lines are 'directive lines' is decided by the reference grammar (checked against the implementation by C15)");
     for (pi, (max_tok, max_lines)) in plans.iter().enumerate() {
         let lines = lines_over_tokens(*max_tok);
